@@ -1405,9 +1405,77 @@ pub fn record(suite: &str, n: usize, seed: u64, arg: &str, out: &mut dyn Write) 
                 m.decode(len, &b2, 1);
             }
         }
+        // C09: inputs generated by TLC (spec/SqrtPlan.tla), one {"num":..,"den":..} per line
+        "sqrtfile" => {
+            emit(out, json!({"k":"reset","build":BUILD}));
+            let text = std::fs::read_to_string(arg).expect("input file");
+            for (i, line) in text.lines().enumerate() {
+                if i % 300 == 299 {
+                    emit(out, json!({"k":"reset","build":BUILD}));
+                }
+                let v: Value = serde_json::from_str(line).expect("json");
+                let num: Vec<u8> = serde_json::from_value(v["num"].clone()).expect("num");
+                let den: Vec<u8> = serde_json::from_value(v["den"].clone()).expect("den");
+                emit_sqrt(out, &fq_from(&num), &fq_from(&den), v["kind"].as_str().unwrap_or(""));
+            }
+        }
+        "sqrtrand" => {
+            emit(out, json!({"k":"reset","build":BUILD}));
+            for i in 0..n {
+                if i % 300 == 299 {
+                    emit(out, json!({"k":"reset","build":BUILD}));
+                }
+                let num = rand_fq(&mut r);
+                let den = match below(&mut r, 6) {
+                    0 => num,
+                    1 => num * decaf377::ZETA,
+                    2 => num.square(),
+                    _ => rand_fq(&mut r),
+                };
+                emit_sqrt(out, &num, &den, "random");
+            }
+        }
+        // first-use race: 16 threads call the routine at once in a fresh process (lazily built tables)
+        "sqrtrace" => {
+            let inputs: Vec<(Fq, Fq)> = (0..16 * 8).map(|_| (rand_fq(&mut r), rand_fq(&mut r))).collect();
+            let results: Vec<Vec<(Fq, Fq, Result<(bool, Fq), String>)>> = std::thread::scope(|sc| {
+                let hs: Vec<_> = (0..16)
+                    .map(|t| {
+                        let inp = inputs[t * 8..t * 8 + 8].to_vec();
+                        sc.spawn(move || inp.iter().map(|(a, b)| (*a, *b, guarded(|| sqrt_call(a, b)))).collect::<Vec<_>>())
+                    })
+                    .collect();
+                hs.into_iter().map(|h| h.join().unwrap()).collect()
+            });
+            emit(out, json!({"k":"reset","build":BUILD}));
+            for t in results {
+                for (a, b, res) in t {
+                    let ev = json!({"k":"sqrt","impl":SQRT_IMPL,"num":fq_bytes(&a),"den":fq_bytes(&b),"kind":"race"});
+                    emit(out, finish(ev, res.map(|(f, y)| json!({"flag":f,"y":fq_bytes(&y)}))));
+                }
+            }
+        }
         _ => return false,
     }
     true
+}
+
+#[cfg(feature = "ark")]
+pub const SQRT_IMPL: &str = "sqrt_ratio_zeta";
+#[cfg(not(feature = "ark"))]
+pub const SQRT_IMPL: &str = "non_arkworks_sqrt_ratio_zeta";
+#[cfg(feature = "ark")]
+pub fn sqrt_call(num: &Fq, den: &Fq) -> (bool, Fq) {
+    Fq::sqrt_ratio_zeta(num, den)
+}
+#[cfg(not(feature = "ark"))]
+pub fn sqrt_call(num: &Fq, den: &Fq) -> (bool, Fq) {
+    Fq::non_arkworks_sqrt_ratio_zeta(num, den)
+}
+pub fn emit_sqrt(out: &mut dyn Write, num: &Fq, den: &Fq, kind: &str) {
+    let ev = json!({"k":"sqrt","impl":SQRT_IMPL,"num":fq_bytes(num),"den":fq_bytes(den),"kind":kind});
+    let res = guarded(|| sqrt_call(num, den));
+    emit(out, finish(ev, res.map(|(f, y)| json!({"flag":f,"y":fq_bytes(&y)}))));
 }
 
 /// Replay a TLC-generated plan: one JSON object per line, each a sequence of steps
